@@ -23,6 +23,7 @@ def scenarios(quick):
         ([cb("c"), rl("r", 4, wait=9), retry(1, dly=1)], []),
         ([bh("b", 1, wait=4), retry(1, dly=1)], [env("BhTake", 0, id="b"), env("BhRelease", 5, id="b")]),     # waiting for a permit as the outermost policy
         ([to(20), retry(2, dly=2)], []),                                                                       # a cancellable copy between the result and the retry policy
+        ([retry(2, dly=9), hg(1, 1), fb(fr="R0", fe="EFB")], []),                                                # a cancelled hedge loser checks its own copy; the cause is still the caller's
         ([retry(0)], []),                                                                                      # policies that allow a single attempt
         ([fb(), retry(0, dly=1)], []),
     ]
